@@ -100,11 +100,20 @@ NODE_MENUS = {
            [[2, 2, 2], 100, 10, 1],
            [[2, 2, 2], 50, 0, 2]],
     # N3 with the low-rank allocation uncapped and unreserved (a "system"
-    # tenant): its priority-0 instances keep rank 50 instead of the unplaced
-    # rank and so sit in the middle of the merged queue
+    # tenant of rank 0, the most important tier and the one value of rank
+    # that is falsy in Python): its priority-0 instances keep rank 0 instead
+    # of the unplaced rank and so sit in the middle of the merged queue
     'N3R': [[[0, 0, 0], 100, 0, None],
             [[2, 2, 2], 100, 10, 1],
-            [[0, 0, 0], 50, 0, None]],
+            [[0, 0, 0], 0, 0, None]],
+    # rank 0 ("system" tier) alone: every reservation x cap, no adjustment
+    # (rank 0 minus an adjustment would be a negative rank): 3 x 3 = 9
+    'NZ': _node_menu((0,), (0,), ('0', '222', '422'), (None, 1, 2)),
+    # rank 0 next to ordinary tenants: default-like tenant, rank-0 reservation
+    # capped at 2x, boosted uncapped reservation
+    'N0': [[[0, 0, 0], 100, 0, None],
+           [[2, 2, 2], 0, 0, 2],
+           [[4, 2, 2], 100, 10, None]],
     # the two capped reservations of NS (ranks 100-10 and 50)
     'N2': [[[2, 2, 2], 100, 10, 1],
            [[2, 2, 2], 50, 0, 2]],
@@ -158,6 +167,8 @@ SLICES = {
     'quick': [
         (1, 2, 'NF', 'IF', 1),
         (1, 3, 'N1', 'ID', 3),
+        (1, 2, 'NZ', 'IF', 1),
+        (2, 2, 'N0', 'IS', 1),
         (2, 2, 'NM', 'IS', 1),
         (2, 2, 'NS', 'IF', 1),
         (2, 3, 'NS', 'IS', 3),
@@ -168,6 +179,8 @@ SLICES = {
     'thorough': [
         (1, 3, 'NF', 'IF', 1),
         (1, 4, 'N1', 'IE', 4),
+        (1, 3, 'NZ', 'IF', 1),
+        (2, 2, 'N0', 'IF', 1),
         (2, 2, 'NM', 'IF', 1),
         (2, 2, 'NF', 'IS', 1),
         (2, 3, 'NS', 'IM', 3),
